@@ -78,6 +78,32 @@ fn main() {
     let seed: u64 = std::env::var("VERIF_SEED").ok().and_then(|s| s.trim().parse::<i64>().ok()).map(|v| v as u64).unwrap_or(1);
     let verif_dir = std::env::var("VERIF_DIR").unwrap_or_else(|_| "/verif".to_string());
 
+    // Supervision (C03, C11): the check proper runs in a child process; if the child dies on a signal, aborts or stalls,
+    // this process runs the triage of the journalled cases and reports the culprit (engine::triage_stage).
+    let supervised = matches!(prop, "C03" | "C11") && replay.is_none() && !triage && replay_tape.is_none() && std::env::var("VERIF_WORKER").is_err();
+    if supervised {
+        // stale journals from an earlier run would confuse the triage
+        if let Ok(rd) = std::fs::read_dir(format!("{}/replays", verif_dir)) {
+            for e in rd.flatten() {
+                let n = e.file_name().to_string_lossy().to_string();
+                if n.starts_with(&format!(".journal-{}-", prop)) {
+                    let _ = std::fs::remove_file(e.path());
+                }
+            }
+        }
+        let exe = std::env::current_exe().unwrap();
+        let status = std::process::Command::new(&exe).args(&args).env("VERIF_WORKER", "1").status();
+        let code = status.ok().and_then(|s| s.code());
+        match code {
+            Some(c @ (0 | 1 | 2)) => exit(c),
+            other => {
+                eprintln!("  abnormal end of the worker process ({:?}): triage of the journalled cases", other);
+                triage = true;
+                no_evidence = true;
+            }
+        }
+    }
+
     if let Err(e) = selftest::run() {
         eprintln!("HARNESS-ERROR oracle self-test failed: {}", e);
         exit(2);
